@@ -138,4 +138,37 @@ theorem aerase_keys_nodup (k : Bytes) (l : List (Bytes × α)) (hu : (l.map (·.
             · exact Or.inr (iht x hx)
       exact sub r k' hm
 
+theorem mem_of_alookup  (k : Bytes) (l : List (Bytes × α)) (v : α) (h : alookup k l = some v) :
+    (k, v) ∈ l := by
+  induction l with
+  | nil => simp [alookup] at h
+  | cons q r ih =>
+    obtain ⟨k', v'⟩ := q
+    by_cases hk : (k' == k) = true
+    · have e : k' = k := by simpa using hk
+      simp only [alookup, hk, ↓reduceIte, Option.some.injEq] at h
+      subst e; subst h; exact List.mem_cons_self
+    · simp only [alookup, hk, Bool.false_eq_true, ↓reduceIte] at h
+      exact List.mem_cons_of_mem _ (ih h)
+
+
+theorem alookup_of_mem_nodup  (l : List (Bytes × α)) (p : Bytes × α) (hp : p ∈ l) (hu : (l.map (·.1)).Nodup) :
+    alookup p.1 l = some p.2 := by
+  induction l with
+  | nil => cases hp
+  | cons q r ih =>
+    obtain ⟨k', v'⟩ := q
+    simp only [List.map_cons, List.nodup_cons] at hu
+    rcases List.mem_cons.mp hp with e | hm
+    · subst e; simp [alookup]
+    · have hne : (k' == p.1) = false := by
+        cases hk : k' == p.1 with
+        | false => rfl
+        | true =>
+          have : k' = p.1 := by simpa using hk
+          exact absurd (List.mem_map.mpr ⟨p, hm, this.symm⟩) hu.1
+      simp only [alookup, hne, Bool.false_eq_true, ↓reduceIte]
+      exact ih hm hu.2
+
+
 end RedisEmu
